@@ -188,10 +188,13 @@ def run(ctx):
     traces = ctx.read_ndjson(op)
     if len(traces) != len(cases):
         raise vlib.Inconclusive("driver returned %d cases for %d" % (len(traces), len(cases)))
-    for tr in traces:
-        if tr.get("setup"):
-            raise vlib.Inconclusive("case %d could not be set up: %s" % (tr["id"], tr["setup"]))
-    ctx.log("cases run on real containers")
+    # cases that could not be set up are judged last: a faulty Open (descriptors handed out twice) can
+    # damage the driver itself and make the set-up of later cases fail; what was observed still counts
+    unset = [tr for tr in traces if tr.get("setup")]
+    keep = [i for i, tr in enumerate(traces) if not tr.get("setup")]
+    cases = [cases[i] for i in keep]
+    traces = [traces[i] for i in keep]
+    ctx.log("cases run on real containers (%d could not be set up)" % len(unset))
     t = ctx.tlc("FileOps_Trace", files={"fotraces.ndjson": traces}, timeout=1200, heap="12g")
     ctx.tlc_ok("FileOps_Trace", t)
     drift = 0
@@ -215,6 +218,8 @@ def run(ctx):
             what = "%s result is not what the reference semantics prescribes for this state: %s" % (e["e"], json.dumps(
                 {k: e[k] for k in ("items", "links", "p", "err", "res", "errs", "post") if k in e})[:700])
         ctx.violation(event_key(tr, at), what, {"case": cases[b["t"] - 1], "trace": tr, "rejected_event": at + 1})
+    if unset and not ctx.violations and not ctx.known_hits:
+        raise vlib.Inconclusive("case %d could not be set up: %s" % (unset[0]["id"], unset[0]["setup"]))
     ctx.states += t.distinct
     ctx.transitions += t.generated
     pats = set()
